@@ -35,7 +35,8 @@ DxQuick(nd)    == IF nd < 3 THEN [1..nd -> 1..3] ELSE { <<1, 2, 3>> }
 X0Quick(nd)    == IF nd < 3 THEN { FnVec(nd, <<0, 0, 0>>), FnVec(nd, Gen3) } ELSE { Gen3 }
 AngQuick(nd)   == IF nd = 1 THEN { <<0>> }
                   ELSE IF nd = 2 THEN { <<a, 0>> : a \in 0..4 }
-                  ELSE { <<0, 0, 0>>, <<1, 0, 0>>, <<0, 1, 0>>, <<0, 0, 1>>, <<4, 0, 0>>, <<3, 1, 2>> }
+                  ELSE { <<0, 0, 0>>, <<1, 0, 0>>, <<0, 1, 0>>, <<0, 0, 1>>, <<4, 0, 0>>, <<3, 1, 2>>,
+                         <<1, 0, 2>>, <<0, 0, 6>> }      \* third angle beyond a quarter turn (180, T+180)
 MultQuick(nd)  == IF nd < 3 THEN [1..nd -> 1..3] ELSE { <<1, 1, 1>>, <<2, 2, 2>>, <<1, 2, 3>>, <<2, 1, 1>> }
 ShiftQuick(nd) == IF nd < 3 THEN [1..nd -> 0..2] ELSE { <<0, 0, 0>>, <<1, 1, 1>>, <<1, 0, 2>> }
 
